@@ -110,6 +110,28 @@ namespace {
          auto en = lex.make_enum(*u.global_region(), ipr::Enum::Kind::Scoped);
          for (int k = 0; k < 5; ++k) en->add_member(lex.get_identifier(vh::u8("e" + std::to_string(k))));
          cls->declare_base(lex.int_type());
+         // one name declared as a function, a variable, a type, a primary and a secondary template, in every order of two, each
+         // declared twice (the records kept per name and type are of different kinds and sizes)
+         impl::Warehouse<ipr::Type> none, one;
+         one.push_back(lex.typename_type());
+         auto& fun = lex.get_function(lex.get_product(none), lex.int_type());
+         auto& fa1 = lex.get_forall(lex.get_product(one), lex.int_type());
+         auto& fa2 = lex.get_forall(lex.get_product(one), lex.char_type());
+         int mixed = 0;
+         for (int first = 0; first < 5; ++first)
+            for (int second = 0; second < 5; ++second) {
+               auto& n = lex.get_identifier(vh::u8("mixed" + std::to_string(++mixed)));
+               auto sc = (mixed % 2) ? u.global_scope() : &cls->body.scope;
+               for (int round = 0; round < 2; ++round)
+                  for (int what : { first, second })
+                     switch (what) {
+                     case 0: sc->make_fundecl(n, fun); break;
+                     case 1: sc->make_var(n, lex.char_type()); break;
+                     case 2: sc->make_typedecl(n, lex.class_type()); break;
+                     case 3: sc->make_primary_template(n, fa1); break;
+                     default: sc->make_secondary_template(n, fa2); break;
+                     }
+            }
       }
       else if (kind == "regions") {
          impl::Lexicon lex;
